@@ -988,7 +988,7 @@ func runCase(rt *rapid.T) {
 		e.cache(1).Close()
 	}
 	closeAll()
-	deadline := time.Now().Add(3 * time.Second)
+	deadline := time.Now().Add(30 * time.Second) // the cache closes its statements from goroutines of its own: give them time on a loaded machine
 	for e.rec.OpenStmts() != 0 && time.Now().Before(deadline) {
 		time.Sleep(200 * time.Microsecond)
 	}
@@ -1389,7 +1389,7 @@ func TestC14BoundedPool(t *testing.T) {
 			rt.Fatalf("%s", msg)
 		}
 		e.cache(via).Close()
-		deadline := time.Now().Add(3 * time.Second)
+		deadline := time.Now().Add(30 * time.Second) // the cache closes its statements from goroutines of its own: give them time on a loaded machine
 		for e.rec.OpenStmts() != 0 && time.Now().Before(deadline) {
 			time.Sleep(200 * time.Microsecond)
 		}
